@@ -545,6 +545,7 @@ func TestC11App(t *testing.T) {
 			ev.Infra(t, "new sim: %v", err)
 		}
 		cur = sim
+		sim.Profile = "noroothash" // the only executor commitments, evidence and incoming messages are the ones this test generates
 		defer sim.Close()
 		r := sim.Reps[0]
 		w := &world{sim: sim, byID: sim.W.NodeByID()}
